@@ -43,3 +43,20 @@ func VerifC08Process(
 
 	_ = s.processQueryLogsAndStats(dctx)
 }
+
+// VerifC08SetAccess gives s an access manager with the given disallowed
+// clients (addresses, CIDRs, ClientIDs), built by the real newAccessCtx, as
+// Prepare does from the configuration.
+func VerifC08SetAccess(s *Server, disallowed []string) (err error) {
+	a, err := newAccessCtx(nil, disallowed, nil)
+	if err != nil {
+		return err
+	}
+
+	s.serverLock.Lock()
+	defer s.serverLock.Unlock()
+
+	s.access = a
+
+	return nil
+}
